@@ -470,10 +470,18 @@ func (e *Engine) Run(t *core.Tape, cfg *core.Config, st *core.Stats) (viol *core
 				var args []string
 				np := 1 + t.Choose(2)
 				for i := 0; i < np; i++ {
-					if t.Choose(6) == 0 {
+					if c := t.Choose(12); c == 0 {
 						num := t.Choose(100000)
 						parts = append(parts, []byte(fmt.Sprint(num)))
 						args = append(args, fmt.Sprint(num))
+					} else if c == 1 {
+						// numbers that are not integers, also with exponents: write puts the number's string form
+						// into the file (forms on which Lua 5.1's %.14g and Go's shortest form agree)
+						nl := [][2]string{{"0.5", "0.5"}, {"-0.25", "-0.25"}, {"1234.5", "1234.5"}, {"1e-05", "1e-05"}, {"2.5e-07", "2.5e-07"},
+							{"1e300", "1e+300"}, {"3.125e-10", "3.125e-10"}, {"-7.5e-06", "-7.5e-06"}, {"1e100", "1e+100"}, {"0.001", "0.001"}}[t.Choose(10)]
+						parts = append(parts, []byte(nl[1]))
+						args = append(args, nl[0])
+						st.Probe("write_non_integer_number")
 					} else {
 						b := genBytes(rng, n, 0)
 						parts = append(parts, b)
